@@ -53,10 +53,10 @@ package gocql
 //@ func (f *framer) readBytesInternal
 //@   props C04 C05
 //@   modifies f.buf
-//@   ensures soft_panic() == (old(len(f.buf)) < 4)
-//@   ensures !soft_panic() && int(int32(be32(old(f.buf), 0))) < 0 ==> result0 == nil && result1 == nil && f.buf == old(f.buf[4:])
-//@   ensures !soft_panic() && int(int32(be32(old(f.buf), 0))) >= 0 && old(len(f.buf))-4 < int(int32(be32(old(f.buf), 0))) ==> result1 != nil && f.buf == old(f.buf[4:])
-//@   ensures !soft_panic() && int(int32(be32(old(f.buf), 0))) >= 0 && old(len(f.buf))-4 >= int(int32(be32(old(f.buf), 0))) ==> result1 == nil && result0 == old(f.buf[4:4+int(int32(be32(f.buf, 0)))]) && f.buf == old(f.buf[4+int(int32(be32(f.buf, 0))):])
+//@   ensures old(len(f.buf)) < 4 ==> result1 != nil && f.buf == old(f.buf)
+//@   ensures old(len(f.buf)) >= 4 && int(int32(be32(old(f.buf), 0))) < 0 ==> result0 == nil && result1 == nil && f.buf == old(f.buf[4:])
+//@   ensures old(len(f.buf)) >= 4 && int(int32(be32(old(f.buf), 0))) >= 0 && old(len(f.buf))-4 < int(int32(be32(old(f.buf), 0))) ==> result1 != nil && f.buf == old(f.buf[4:])
+//@   ensures old(len(f.buf)) >= 4 && int(int32(be32(old(f.buf), 0))) >= 0 && old(len(f.buf))-4 >= int(int32(be32(old(f.buf), 0))) ==> result1 == nil && result0 == old(f.buf[4:4+int(int32(be32(f.buf, 0)))]) && f.buf == old(f.buf[4+int(int32(be32(f.buf, 0))):])
 
 //@ func (f *framer) readBytes
 //@   props C04 C05
@@ -454,6 +454,45 @@ package gocql
 
 //@ func decVints
 //@   props C05 C12
+
+// ---------------------------------------------------------------------------
+// session.go: rows. API boundaries: no panic (of either kind) may escape.
+// ---------------------------------------------------------------------------
+
+// Iter well-formedness (established by executeQuery; assumed here): rows present => framer set;
+// fetch() always yields an Iter (errors travel in Iter.err).
+//@ func (iter *Iter) readColumn
+//@   props C04 C05 C15
+//@   requires iter.framer != nil
+//@   ensures result1 == nil ==> true
+
+//@ func (n *nextIter) fetch
+//@   props C15
+//@   trusted sync.Once + executeQuery always return a non-nil *Iter
+//@   ensures result != nil
+
+//@ func scanColumn
+//@   props C04 C05 C15
+//@   requires len(dest) >= 0
+//@   assume col.TypeInfo != nil
+//@   assume typeis(col.TypeInfo, TupleTypeInfo) || true
+
+//@ func (iter *Iter) Scan
+//@   props C04 C05 C15
+//@   boundary
+//@   assume iter.pos < iter.numRows ==> iter.framer != nil
+
+//@ func (is *iterScanner) Next
+//@   props C04 C05 C15
+//@   boundary
+//@   requires is.iter != nil
+//@   assume is.iter.pos < is.iter.numRows ==> is.iter.framer != nil
+//@   loop 0: invariant 0 <= i
+
+//@ func (is *iterScanner) Scan
+//@   props C04 C05 C15
+//@   boundary
+//@   requires is.iter != nil
 
 // ---------------------------------------------------------------------------
 // uuid.go (RFC 4122; oracle in /verif/spec/bv.smt2 blocks uuid, hex)
